@@ -57,6 +57,10 @@ class Ctx:
             self.cov["samples"].append(s)
     def tie(self, name, **kw):
         self.cov["ties"].setdefault(name, {}).update(kw)
+    def tie_tally(self, name, key):
+        """how often each observed shape went through a tie"""
+        d = self.cov["ties"].setdefault(name, {})
+        d[key] = d.get(key, 0) + 1
     def violation(self, signature, what, replay, found_input=True):
         self.violations.append({"signature": signature, "what": what, "replay": replay, "found_input": found_input})
     def tie_broken(self, name, detail):
